@@ -1113,13 +1113,11 @@ def tunnel_distance(lat1, lon1, lat2, lon2):
     Returns:
         Tunnel distance in meters
     """
-    points1 = np.column_stack(
-        geocentric2cart(constants.earth_radius, lat1, lon1)
+    x1, y1, z1 = geocentric2cart(constants.earth_radius, lat1, lon1)
+    x2, y2, z2 = geocentric2cart(constants.earth_radius, lat2, lon2)
+    return np.atleast_1d(
+        np.sqrt((x2 - x1)**2 + (y2 - y1)**2 + (z2 - z1)**2)
     )
-    points2 = np.column_stack(
-        geocentric2cart(constants.earth_radius, lat2, lon2)
-    )
-    return np.sqrt(np.sum((points2 - points1)**2, axis=1))
 
 
 def _broadcast(*args):
